@@ -17,7 +17,8 @@ def sample(r):
 
 def run(rep, tier):
     lib.proof_gate(rep, PROP, THEOREMS, IMPORTS)
-    n = 400 if tier == "quick" else 40000
+    n = 400 if tier == "quick" else 160000
+    n = rep.scale(n)
     agg = runner.correspondence(rep, prop=PROP, mod_name="harness.mm", driver_kind="mmap", ncases=n,
                                 extra=("alloc",), nontrivial=nontrivial, oracle_props={"C02"},
                                 sample_fmt=sample)
